@@ -89,6 +89,18 @@ def step (s : S) (line : String) : S × String :=
       let h : Option Str := if (arg? ws "help").isSome then field ws "help" else some "help".toList
       ({ s with table := s.table ++ [o], helps := s.helps ++ [(h, (argNat? ws "grp").getD 0)] }, "ok")
     | _, _ => (s, "bad-op")
+  | "defapp" :: _ =>
+    let argv := match arg? ws "w" with
+      | none => []
+      | some "" => []
+      | some v => (v.splitOn ",").map hexWord
+    if s.table.isEmpty || argv.isEmpty then (s, "bad-op") else
+    (match createDefaultApp s.table ((argInt? ws "nargs").getD (-1)) argv with
+      | none => ({ s with dead := true }, "fault")
+      | some .exitParse => (s, "exit1 parse")
+      | some .exitHelp => (s, "exit0 help")
+      | some .exitNargs => (s, "exit1 nargs")
+      | some (.returned g) => (s, "returned argn=" ++ toString (argNumber g)))
   | "atof" :: _ =>
     let v := (field ws "s").getD []
     (s, "isreal=" ++ b01 (isReal v) ++ " bits=" ++ hex16 (atofBits v))
